@@ -9,8 +9,18 @@ from ..tables import Tables
 
 
 def check(prog, rep):
+    rep.explanation = (
+        "update_ss_bridges evaluated on a model structure (constant propagation on object models); guard tables of the consumers "
+        "(add_hydrogens, CYS.set_state, debump exemptions); the CYX/CYM patch tables and bridged force-field cells; the pairing/alias "
+        "analysis of the scan's code shape is kept as a fallback for shapes the interpreter cannot follow"
+    )
+    rep.not_decided += ["geometry of real structures", "the three-sulfur case (outside the property)"]
+    n0 = len(rep.rules)
     rep.guarded(rule_model_bridges, prog, rep)
-    rep.guarded(_structural, prog, rep)
+    model_ok = len(rep.rules) > n0 and not rep.deferred
+    if not model_ok:
+        rep.guarded(_structural_scan, prog, rep)  # the shape-based formulation of the same facts
+    rep.guarded(_consumers, prog, rep)
     rep.guarded(rule_bridged_cells, prog, rep)
 
 
@@ -58,8 +68,9 @@ def rule_model_bridges(prog, rep):
         ("c5", "CYS", "CYS", "A", 50, (20.0, 0.0, 0.0)), ("c6", "CYS", "CYS", "A", 51, None),
         ("a7", "ALA", "ALA", "A", 52, None), ("c8", "CYS", "CYM", "A", 60, (40.0, 0.0, 0.0)),
         ("c9", "CYS", "CYS", "C", 1, (60.0, 0.0, 0.0)), ("c10", "CYS", "CYS", "C", 2, (60.0, limit + 0.1, 0.0)),
+        ("c11", "CYS", "CYS", "D", 7, (80.0, 0.0, 0.0)), ("c12", "CYS", "CYS", "D", 9, (80.0, 0.0, limit - 0.01)),
     ]
-    want = {frozenset(("c1", "c2")), frozenset(("c3", "c4"))}
+    want = {frozenset(("c1", "c2")), frozenset(("c3", "c4")), frozenset(("c11", "c12"))}
 
     def build(order):
         residues, atoms = [], []
@@ -122,13 +133,7 @@ def rule_model_bridges(prog, rep):
     r.info["methods_interpreted"] = sorted(set(run.calls))
 
 
-def _structural(prog, rep):
-    rep.explanation = (
-        "pairing/alias analysis of Biomolecule.update_ss_bridges (symmetric partner update, uniform patch loop, "
-        "limit constant and operator, independence from order/chain/numbering), guard tables of the consumers "
-        "(add_hydrogens, CYS.set_state, debump exemptions) and the CYX/CYM patch tables"
-    )
-    rep.not_decided += ["geometry of real structures", "the three-sulfur case (outside the property)"]
+def _structural_scan(prog, rep):
     fi = prog.func("biomolecule.py", "Biomolecule.update_ss_bridges")
     fn = fi.node
     where = f"pdb2pqr/biomolecule.py:{fn.lineno} (Biomolecule.update_ss_bridges)"
@@ -207,7 +212,7 @@ def _structural(prog, rep):
                f"pdb2pqr/biomolecule.py:{inner.lineno} (update_ss_bridges)")
 
     # ------------------------------------------------------------------ R3
-    r3 = rep.rule("R3", "bonding limit is 2.5 A, compared strictly on the SG-SG distance", floor=2)
+    r3 = rep.rule("R3s", "bonding limit compared strictly on the SG-SG distance (shape)", floor=2)
     cmp_if = None
     for n in iter_stmts(inner.body):
         if isinstance(n, ast.If) and isinstance(n.test, ast.Compare) and any(isinstance(c, ast.Call) and U(c.func).endswith(".append")
@@ -280,6 +285,13 @@ def _structural(prog, rep):
             okp = binds.get(pv) == f"{dname}[{v}][0]"
             r2.add("partner-pointer", okp, f"partner pointer <- {pv} = {binds.get(pv)}", w2)
 
+
+
+def _consumers(prog, rep):
+    consts = prog.module_constants("config.py")
+    r3 = rep.rule("R3", "the bonding limit is 2.5 A", floor=1)
+    r3.add("limit-constant", consts.get("BONDED_SS_LIMIT") == 2.5, f"config.BONDED_SS_LIMIT folds to {consts.get('BONDED_SS_LIMIT')}; the model pairs at "
+           "2.49 A (bridged) and 2.6 A (free) decide how it is compared", "pdb2pqr/config.py")
     # ------------------------------------------------------------------ R5
     r5 = rep.rule("R5", "consumers honour the bridge state (HG suppression, CYX naming, clash exemption)", floor=4)
     ah = prog.func("biomolecule.py", "Biomolecule.add_hydrogens").node
@@ -314,7 +326,7 @@ def _structural(prog, rep):
                 reads.append((f, n))
     for f, n in reads:
         cmpn = parent(n)
-        ok = isinstance(cmpn, ast.Compare) and isinstance(cmpn.ops[0], (ast.Eq, ast.Is)) and U(cmpn.comparators[0]) in ("closeatom", "atom2", "nearatom")
+        ok = isinstance(cmpn, ast.Compare) and len(cmpn.ops) == 1 and isinstance(cmpn.ops[0], (ast.Eq, ast.Is)) and isinstance(cmpn.comparators[0], ast.Name)
         r5.add(f"exemption|{f.key}:{U(cmpn)[:40]}", ok, f"clash exemption compares {U(cmpn)}",
                f"pdb2pqr/{f.module.rel}:{n.lineno} ({f.qual})")
 
